@@ -1,7 +1,6 @@
-(* deps (scanned by harness/vlib.py::build_runner): Cspuz.Lib.PyErr Cspuz.Core.Expr Cspuz.Core.Program Cspuz.Core.Build Cspuz.Graph.GraphModel Cspuz.Graph.Crossable *)
+(* deps (scanned by harness/vlib.py::build_runner): Cspuz.Lib.PyErr Cspuz.Core.Expr Cspuz.Core.Program Cspuz.Core.Build Cspuz.Graph.GraphModel Cspuz.Graph.Avc Cspuz.Graph.Crossable *)
 Require Extraction.
 Require Import ExtrOcamlBasic.
 From Coq Require Import ZArith List.
-From Cspuz Require Import Lib.PyErr Core.Expr Core.Program Core.Build Graph.GraphModel Graph.Crossable.
-Extraction "model.ml" Z.add Nat.add pyerr_code empty_state new_frame post_crossable split_graph
-  eval holds gsem_connectivity in_bounds.
+From Cspuz Require Import Lib.PyErr Core.Expr Core.Program Core.Build Graph.GraphModel Graph.Avc Graph.Crossable.
+Extraction "model.ml" Z.add Nat.add pyerr_code empty_state new_frame post_crossable split_graph.
